@@ -1140,7 +1140,11 @@ def _range(s, *a):
 
 
 def _sum(s, xs, start=0):
-    if isinstance(xs, Seq): return app('Σ', *flatten(xs))
+    if isinstance(xs, Seq):
+        r = app('Σ', *flatten(xs))
+        if not hasattr(s, 'sums'): s.sums = []
+        s.sums.append((r, xs))
+        return r
     it = xs.items if isinstance(xs, PList) else xs.xs if isinstance(xs, Vec) else xs
     if not isinstance(it, (list, tuple)): raise Unsupported("sum over %r" % (xs,))
     r = lift(start)
@@ -1213,7 +1217,7 @@ def _list(s, x=None):
 def _set(s, x=()):
     if isinstance(x, PList): x = x.items
     if isinstance(x, (list, tuple)):
-        if all(not isinstance(v, (T, B, Obj)) for v in x): return frozenset(x)
+        if all(not isinstance(v, (B, Obj)) for v in x): return frozenset(x)      # symbolic numbers: distinct terms (syntactic de-duplication)
     c = s.contracts.get('set()')
     if c is not None: return c(s, dict(args=[x], kwargs={}))
     raise Unsupported("set of symbolic values")
